@@ -112,6 +112,33 @@ fn wrong_value(site: &Site) -> &'static str {
 
 /// Returns (modules as (name, text), index of the main module)
 pub fn build(base: &Base, replaced: &[usize], p: Placement) -> Vec<(String, String)> {
+    build_named(base, replaced, p, &[])
+}
+
+/// value reference names that look like reserved words in another letter case (valuereferences start with a
+/// lower-case letter; the reserved words MAX, MIN, SIZE, TRUE, ... are upper case: X.680 12.38)
+pub const ODD_NAMES: [[&str; 2]; 6] = [["max", "min"], ["min", "max"], ["mAX", "mIN"], ["size", "of"], ["true", "false"], ["optional", "default"]];
+
+pub fn build_named(base: &Base, replaced: &[usize], p: Placement, names_for_sites: &[&str]) -> Vec<(String, String)> {
+    let text = build_plain(base, replaced, p);
+    if names_for_sites.is_empty() {
+        return text;
+    }
+    // rename ref-<i> -> the given name of the k-th replaced site (whole-word: the names are followed by a blank,
+    // a comma, a parenthesis, a dot or a line end)
+    text.into_iter()
+        .map(|(n, mut t)| {
+            for (k, i) in replaced.iter().enumerate() {
+                if let Some(name) = names_for_sites.get(k) {
+                    t = t.replace(&format!("ref-{i}"), name);
+                }
+            }
+            (n, t)
+        })
+        .collect()
+}
+
+fn build_plain(base: &Base, replaced: &[usize], p: Placement) -> Vec<(String, String)> {
     let vals: Vec<String> = base.sites.iter().enumerate().map(|(i, s)| if replaced.contains(&i) { format!("ref-{i}") } else { s.lit.to_string() }).collect();
     let body = fill(base.template, &vals);
     let defs = |wrong: bool| -> String { replaced.iter().map(|i| format!("ref-{i} {} ::= {}\n", base.sites[*i].vtype, if wrong { wrong_value(&base.sites[*i]) } else { base.sites[*i].lit })).collect() };
@@ -182,6 +209,8 @@ pub struct Work {
     pub base: usize,
     pub replaced: Vec<usize>,
     pub placement: Placement,
+    /// 0: the references are called ref-<i>; k: the names ODD_NAMES[k - 1]
+    pub names: usize,
 }
 
 fn subsets(n: usize, max: usize) -> Vec<Vec<usize>> {
@@ -201,7 +230,9 @@ pub fn check(w: &Work, bs: &[Base]) -> Vec<Failure> {
         Ok(Ok(s)) => s,
         other => return vec![Failure { class: format!("c12.literal-variant-rejected.{}", base.name), case: json!({"kind":"c12","base":base.name}), expected: "Ok".into(), observed: format!("{other:?}") }],
     };
-    let mods = build(base, &w.replaced, w.placement);
+    let odd: Vec<&str> = if w.names == 0 { vec![] } else { ODD_NAMES[w.names - 1].to_vec() };
+    let mods = build_named(base, &w.replaced, w.placement, &odd);
+    let name_class = if w.names == 0 { String::new() } else { format!(".names-{}", ODD_NAMES[w.names - 1].join("-")) };
     let kinds: Vec<&str> = {
         let mut k: Vec<&str> = w.replaced.iter().map(|i| base.sites[*i].kind).collect();
         k.sort();
@@ -212,16 +243,16 @@ pub fn check(w: &Work, bs: &[Base]) -> Vec<Failure> {
     for order in permutations(mods.len()) {
         let main_pos = order.iter().position(|i| *i == 0).unwrap();
         let order_name: Vec<&str> = order.iter().map(|i| mods[*i].0.as_str()).collect();
-        let case = || json!({"kind": "c12", "base": base.name, "replaced_sites": w.replaced, "placement": format!("{:?}", w.placement), "load_order": order_name, "modules": mods.iter().map(|m| m.1.clone()).collect::<Vec<_>>()});
+        let case = || json!({"kind": "c12", "base": base.name, "replaced_sites": w.replaced, "names": w.names, "placement": format!("{:?}", w.placement), "load_order": order_name, "modules": mods.iter().map(|m| m.1.clone()).collect::<Vec<_>>()});
         let decoy_first = w.placement == Placement::SiblingByOidWithDecoy && order.iter().position(|i| *i == 2) < order.iter().position(|i| *i == 1);
         let oclass = if w.placement == Placement::SiblingByOidWithDecoy { if decoy_first { ".decoy-loaded-before-the-real-module" } else { ".real-module-loaded-first" } } else { "" };
         let _ = main_pos;
         match resolve_main(&mods, &order) {
             Err(p) => out.push(Failure { class: format!("c12.panic.{:?}", w.placement), case: case(), expected: want.clone(), observed: format!("panic: {p}") }),
-            Ok(Err(e)) => out.push(Failure { class: format!("c12.reference-not-resolved.{:?}{oclass}.{}", w.placement, kinds.join("+")), case: case(), expected: truncate(&want, 200), observed: truncate(&e, 200) }),
+            Ok(Err(e)) => out.push(Failure { class: format!("c12.reference-not-resolved.{:?}{oclass}{name_class}.{}", w.placement, kinds.join("+")), case: case(), expected: truncate(&want, 200), observed: truncate(&e, 200) }),
             Ok(Ok(got)) => {
                 if got != want {
-                    out.push(Failure { class: format!("c12.resolves-differently-from-literal.{:?}{oclass}.{}", w.placement, kinds.join("+")), case: case(), expected: truncate(&want, 240), observed: truncate(&got, 240) });
+                    out.push(Failure { class: format!("c12.resolves-differently-from-literal.{:?}{oclass}{name_class}.{}", w.placement, kinds.join("+")), case: case(), expected: truncate(&want, 240), observed: truncate(&got, 240) });
                 }
             }
         }
@@ -240,6 +271,12 @@ pub fn negatives(bs: &[Base]) -> Vec<(String, Vec<(String, String)>, String)> {
             if !s.kind.starts_with("default") {
                 out.push((format!("undefined.{}.{}", base.name, s.kind), vec![("Main".into(), format!("Main {header}\n{body}\nEND\n"))], "reference to an undefined value".into()));
                 out.push((format!("not-exported.{}.{}", base.name, s.kind), vec![("Main".into(), format!("Main {header}\nIMPORTS missing-ref FROM Sib;\n{body}\nEND\n")), ("Sib".into(), format!("Sib {header}\nother INTEGER ::= 1\nEND\n"))], "imported from a module that does not define it".into()));
+                if s.kind.starts_with("size") {
+                    out.push((format!("negative-size.{}.{}", base.name, s.kind), vec![("Main".into(), format!("Main {header}\nmissing-ref INTEGER ::= -1\n{body}\nEND\n"))], "a negative number where a size is needed".into()));
+                }
+                // import cycles that never reach a definition: an error, not unbounded recursion
+                out.push((format!("import-cycle.{}.{}", base.name, s.kind), vec![("Main".into(), format!("Main {header}\nIMPORTS missing-ref FROM Sib;\n{body}\nEND\n")), ("Sib".into(), format!("Sib {header}\nIMPORTS missing-ref FROM Main;\nEND\n"))], "imported in a cycle without a definition".into()));
+                out.push((format!("self-import.{}.{}", base.name, s.kind), vec![("Main".into(), format!("Main {header}\nIMPORTS missing-ref FROM Main;\n{body}\nEND\n"))], "imported from the importing module itself without a definition".into()));
                 for (wt, wv) in [("BOOLEAN", "TRUE"), ("UTF8String", "\"five\"")] {
                     out.push((format!("wrong-type-{wt}.{}.{}", base.name, s.kind), vec![("Main".into(), format!("Main {header}\nmissing-ref {wt} ::= {wv}\n{body}\nEND\n"))], format!("a {wt} value where an integer is needed")));
                 }
@@ -276,7 +313,13 @@ pub fn run(args: &Args) -> ! {
     for (bi, b) in bs.iter().enumerate() {
         for sub in subsets(b.sites.len(), if thorough { 5 } else { 2 }) {
             for p in PLACEMENTS {
-                work.push(Work { base: bi, replaced: sub.clone(), placement: p });
+                work.push(Work { base: bi, replaced: sub.clone(), placement: p, names: 0 });
+                // names that look like reserved words in another letter case: where the definitions are local or in a sibling
+                if sub.len() <= 2 && matches!(p, Placement::LocalBefore | Placement::SiblingByName) {
+                    for k in 1..=ODD_NAMES.len() {
+                        work.push(Work { base: bi, replaced: sub.clone(), placement: p, names: k });
+                    }
+                }
             }
         }
     }
@@ -322,7 +365,7 @@ pub fn run(args: &Args) -> ! {
         let w = &work[cr.index];
         let mods = build(&bs[w.base], &w.replaced, w.placement);
         let class = format!("c12.process-{}.{:?}", if cr.what.starts_with("hang") { "hang" } else { "abort" }, w.placement);
-        let f = Failure { class: class.clone(), case: json!({"kind": "c12", "base": bs[w.base].name, "replaced_sites": w.replaced, "placement": format!("{:?}", w.placement), "modules": mods.iter().map(|m| m.1.clone()).collect::<Vec<_>>()}), expected: "the model of the all-literal module, or a resolve error".into(), observed: format!("worker process {} (stack overflow: unbounded recursion in the resolver?) in some load order", cr.what) };
+        let f = Failure { class: class.clone(), case: json!({"kind": "c12", "base": bs[w.base].name, "replaced_sites": w.replaced, "names": w.names, "placement": format!("{:?}", w.placement), "modules": mods.iter().map(|m| m.1.clone()).collect::<Vec<_>>()}), expected: "the model of the all-literal module, or a resolve error".into(), observed: format!("worker process {} (stack overflow: unbounded recursion in the resolver?) in some load order", cr.what) };
         agg.entry(class).or_insert((0, f)).0 += 1;
     }
     let mut report = Report::new(args, "model_checking");
